@@ -1,0 +1,19 @@
+//go:build verif
+
+package storage
+
+import "github.com/diiyw/nodis/ds"
+
+// VerifEncodeEntry exposes the storage envelope (type byte + payload) to the verification harness.
+func VerifEncodeEntry(v ds.Value) []byte {
+	return NewEntry(v).encode()
+}
+
+// VerifDecodeEntry parses an envelope and rebuilds the typed value, as Pebble.Get does.
+func VerifDecodeEntry(b []byte) (ds.Value, error) {
+	e, err := parseEntry(b)
+	if err != nil {
+		return nil, err
+	}
+	return e.GetValue()
+}
